@@ -9,8 +9,9 @@ META = {
     ],
     "outside": [
         "misc/e2undo.c:main (validation before the first write, -n, -f, the forced fsck after an unfinished run): monolithic, needs a hook; its key walk is restated as the reference reader of the capture harness",
-        "try_reopen_undo_file()/check_filesystem(): harness reopen.c is written but NOT registered -- E2UNDO_MIN_BLOCK_SIZE forces 1024-byte undo blocks and the query needs > 10 GB; a `#ifndef E2UNDO_MIN_BLOCK_SIZE` hook would make it fit",
-        "chains of tools on one undo file (needs re-open), block size changes between captures (undo_set_blksize: key fsblk is in units of the block size at capture time, the header records only the last one)",
+        "re-open followed by further recording is covered as re-open (reopen harness) + capture step from the invariant the re-open establishes; the direct follow-up-write queries (FOLLOWUP*) are thorough-tier only and had no verdict within 150 s",
+        "chains with a non-zero fs offset: undo_open() validates the superblock before the tool sets the offset, so the tools refuse the second run (fails safe; observed natively)",
+        "block size changes between captures (undo_set_blksize: key fsblk is in units of the block size at capture time, the header records only the last one)",
         "keys shortened by the device end that already exist before the step (and their extension after the device grew); E2UNDO_MAX_EXTENT_BLOCKS limit (512 undo blocks per key)",
         "crc VALUES of keys (the crc-chain check is a thorough-tier query only) and of course crc32c itself",
         "tool call sites passing -z; undo_open/undo_close/undo_set_option string parsing",
@@ -40,7 +41,7 @@ def cap_cfgs():
     c.append(cap("WRITE", 16, 20, cnt=-20, **N))
     c.append(cap("WRITE_BYTE", 16, 20, **N))
     c.append(cap("ZEROOUT", 16, 48, **N))
-    c.append(cap("DISCARD", 16, 48, **N))
+    c.append(cap("DISCARD", 16, 48, **N, **{"_tier": "thorough"}))   # same path as ZEROOUT
     c.append(cap("WRITE", 16, 16, cnt=1, offmode=1, **N))
     c.append(cap("WRITE", 16, 16, cnt=1, BEYOND_END=None, **N))       # fixed by 5d7d5931
     c.append(cap("WRITE_BYTE", 16, 20, offmode=1, **N))               # fixed by b20ebc92
@@ -64,23 +65,29 @@ def reopen_cfgs():
     def uw(nk, extra=()):
         return ["try_reopen_undo_file.0:%d" % (nk + 2), "try_reopen_undo_file.1:%d" % (nk + 2)] + list(extra)
     c = []
-    for nk, fsbs in ((0, 16), (1, 16), (3, 16), (1, 48)):
+    for nk, fsbs in ((0, 16), (1, 16), (3, 16)):
         c.append(dict(H4, NK=nk, FSBS=fsbs, _unwindset=uw(nk)))
-    c.append(dict(H4, NK=1, FSBS=16, OFFQ=1, _unwindset=uw(1)))
+    c.append(dict(H4, NK=1, FSBS=48, _unwindset=uw(1), _tier="thorough"))
+    c.append(dict(H4, NK=1, FSBS=16, OFFQ=1, _unwindset=uw(1), _tier="thorough"))
     c.append(dict(H4, NK=1, FSBS=16, ROUNDTRIP=None, OFFQ=1, _unwindset=uw(1)))
-    c.append(dict(H4, NK=1, FSBS=16, FOLLOWUP=None, _unwindset=uw(1, FU)))
-    c.append(dict(H4, NK=1, FSBS=16, FOLLOWUP_SAVED=None, _unwindset=uw(1, FU)))
-    c.append(dict(H4, NK=1, FSBS=16, OFFQ=1, FOLLOWUP_SAVED=None, _unwindset=uw(1, FU)))
+    # behavioural (numbering-independent) follow-up write after the re-open: no verdict within 150 s on the loaded machine -> thorough
+    c.append(dict(H4, NK=1, FSBS=16, FOLLOWUP=None, _unwindset=uw(1, FU), _tier="thorough"))
+    c.append(dict(H4, NK=1, FSBS=16, FOLLOWUP_SAVED=None, _unwindset=uw(1, FU), _tier="thorough"))
+    c.append(dict(H4, NK=1, FSBS=16, OFFQ=1, FOLLOWUP_SAVED=None, _unwindset=uw(1, FU), _tier="thorough"))
     for dmg in (1, 2, 3, 4, 5, 6):
         c.append(dict(H4, NK=1, FSBS=16, DAMAGE=dmg, _unwindset=uw(1)))
     c.append(dict(H4, NK=1, FSBS=16, DAMAGE=7, _unwindset=uw(1), _tier="thorough"))
-    # candidates for genuine defects, each isolated in its own queries:
-    # (a) fs offset >= one undo block: map rebuilt fs-relative, tested absolute
-    c.append(dict(H4, NK=1, FSBS=16, OFFQ=2, FOLLOWUP_SAVED=None, _unwindset=uw(1, FU)))
-    c.append(dict(H4, NK=1, FSBS=16, OFFQ=2, FOLLOWUP=None, _unwindset=uw(1, FU)))
-    # (b) a file whose last key block is exactly full (num_keys % KEYS_PER_BLOCK == 0)
+    # (a) fs offset >= one undo block: the map is rebuilt fs-relative but tested absolute -> this query FAILS (solver + native
+    #     replay), label "block map rebuilt with the ids undo_write_tdb tests ...".  LATENT, not a finding: its pre-state (a
+    #     successful re-open with a non-zero fs offset) is not reachable through undo_open(): check_filesystem() runs before the
+    #     tool sets the offset, reads the wrong superblock and the tools refuse with "Wrong undo file for this filesystem"
+    #     (checked natively with mke2fs -E offset=524288 -z u; tune2fs -z u img?offset=524288).  Kept in the thorough tier.
+    c.append(dict(H4, NK=1, FSBS=16, OFFQ=2, _unwindset=uw(1), _tier="thorough"))
+    c.append(dict(H4, NK=1, FSBS=16, OFFQ=2, FOLLOWUP_SAVED=None, _unwindset=uw(1, FU), _tier="thorough"))
+    c.append(dict(H4, NK=1, FSBS=16, OFFQ=2, FOLLOWUP=None, _unwindset=uw(1, FU), _tier="thorough"))
+    # (b) GENUINE DEFECT (fails on the current tree): a file whose last key block is exactly full (num_keys % KEYS_PER_BLOCK == 0)
     c.append(dict(H4, NK=2, FSBS=16, _unwindset=uw(2)))
-    c.append(dict(H4, NK=2, FSBS=16, FOLLOWUP=None, _unwindset=uw(2, FU)))
+    c.append(dict(H4, NK=2, FSBS=16, FOLLOWUP=None, _unwindset=uw(2, FU), _tier="thorough"))
     return c
 
 HARNESSES = [
@@ -113,7 +120,8 @@ MANIFEST = {
             "ends. write_undo_indexes is compared field by field with the file format for all inputs. Re-open, e2undo's "
             "own validation and multi-tool chains are outside.",
     "note": "Trusted: CBMC's C semantics, the two channel models, the set model of the block map, the chaining crc stub, "
-            "the scaled geometry (48-byte undo blocks, 2 keys per key block). Three queries fail on the unchanged tree "
-            "(genuine defects: write beyond the device end refused with EXT2_ET_SHORT_READ; write_byte adds the fs offset "
-            "twice; offsets that are not a multiple of tdb_data_size shift the captured range).",
+            "the scaled geometry (48-byte undo blocks, 2 keys per key block). Two queries fail on the current tree: "
+            "capture[..OFFMODE=2,OFF_CARRY..] (known finding: offsets that are not a multiple of tdb_data_size shift the "
+            "captured range) and reopen[..NK=2..] (re-opening a file whose last key block is exactly full leaves no room "
+            "for the next key: key block overrun, e2undo then reports a wrong key magic).",
 }
